@@ -23,8 +23,17 @@ Pow2(k) == CASE k = 0 -> 1 [] k = 1 -> 2 [] k = 2 -> 4 [] k = 3 -> 8 [] k = 4 ->
 
 IsLimbs(a) == \A i \in 1..Len(a) : a[i] \in 0..(B-1)
 
-ZeroN(n) == [i \in 1..n |-> 0]
-Pad(a, n) == [i \in 1..n |-> IF i <= Len(a) THEN a[i] ELSE 0]      \* n >= Len(a), or truncation is intended
+(***************************************************************************)
+(* TLC evaluates a function constructor [i \in S |-> e] LAZILY: every later  *)
+(* application re-evaluates e (measured: a field multiplication on such an  *)
+(* operand costs 100x more, because each of its 22 limbs is read 44 times). *)
+(* Everything that flows into arithmetic is therefore made a concrete tuple:*)
+(* Conc(f) forces a constructed sequence, ZeroN / Pad use SubSeq and \o.    *)
+(***************************************************************************)
+Conc(f) == f \o << >>
+LOCAL Zeros128 == << 0, 0, 0, 0, 0, 0, 0, 0, 0, 0, 0, 0, 0, 0, 0, 0, 0, 0, 0, 0, 0, 0, 0, 0, 0, 0, 0, 0, 0, 0, 0, 0, 0, 0, 0, 0, 0, 0, 0, 0, 0, 0, 0, 0, 0, 0, 0, 0, 0, 0, 0, 0, 0, 0, 0, 0, 0, 0, 0, 0, 0, 0, 0, 0, 0, 0, 0, 0, 0, 0, 0, 0, 0, 0, 0, 0, 0, 0, 0, 0, 0, 0, 0, 0, 0, 0, 0, 0, 0, 0, 0, 0, 0, 0, 0, 0, 0, 0, 0, 0, 0, 0, 0, 0, 0, 0, 0, 0, 0, 0, 0, 0, 0, 0, 0, 0, 0, 0, 0, 0, 0, 0, 0, 0, 0, 0, 0, 0 >>
+ZeroN(n) == SubSeq(Zeros128, 1, n)
+Pad(a, n) == IF Len(a) >= n THEN SubSeq(a, 1, n) ELSE a \o SubSeq(Zeros128, 1, n - Len(a))   \* truncation is intended when n < Len(a)
 
 \* number of significant limbs
 RECURSIVE SigLen(_, _)
@@ -108,10 +117,10 @@ OS2IP(bs) ==
   LET n  == Len(bs)
       g  == (n + 2) \div 3
       le(i) == IF i <= n THEN bs[n + 1 - i] ELSE 0     \* i-th little-endian byte, 1-based
-  IN  [k \in 1..(2 * g) |->
+  IN  Conc([k \in 1..(2 * g) |->
          LET j == (k + 1) \div 2                         \* group number
              b0 == le(3 * j - 2)  b1 == le(3 * j - 1)  b2 == le(3 * j)
-         IN  IF k % 2 = 1 THEN b0 + (b1 % 16) * 256 ELSE (b1 \div 16) + b2 * 16]
+         IN  IF k % 2 = 1 THEN b0 + (b1 % 16) * 256 ELSE (b1 \div 16) + b2 * 16])
 
 \* I2OSP(a, n): the n-byte big-endian string of a (a must fit)
 I2OSP(a, n) ==
@@ -122,7 +131,7 @@ I2OSP(a, n) ==
         IN  CASE r = 0 -> l0 % 256
               [] r = 1 -> (l0 \div 256) + (l1 % 16) * 16
               [] r = 2 -> l1 \div 16
-  IN  [i \in 1..n |-> le(n + 1 - i)]
+  IN  Conc([i \in 1..n |-> le(n + 1 - i)])
 
 -----------------------------------------------------------------------------
 (***************************************************************************)
